@@ -351,7 +351,12 @@ fn value_to_sql_literal(value: &OwnedValue) -> String {
                     "'-Infinity'".to_string()
                 }
             } else {
-                f.to_string()
+                let text = f.to_string();
+                if text.contains('.') || text.contains('e') {
+                    text
+                } else {
+                    format!("{}.0", text)
+                }
             }
         }
         OwnedValue::Text(s) => {
